@@ -120,10 +120,10 @@ def _drop_post(ctx, k):
 
 def _drop_known_loop(k):
     w, w0 = f"wit{k}", f"w{k}0"
-    return Loop(done="D", invariants={
+    return Loop(done="DK", invariants={
         "wit-old": f"all(n in {w} and (n == name or {w}[n] == {w0}[n]) for n in set({w0}))",
         "wit-only": f"all(n in {w0} or n == name for n in set({w}))",
-        "wit-new": f"D == set() or (name in {w} and {w}[name] in known_members)",
+        "wit-new": f"DK == set() or (name in {w} and {w}[name] in known_members)",
     })
 
 
@@ -152,7 +152,10 @@ def _groups_contracts(target, ctx, params):
         ghost[f"side{k}Groups[name] = tuple(sorted(members))"] = [f"m{k}0 = {{**{M}}}", f"o{k}0 = {{**owner{k}}}", f"tn{k} = {{**tn{k}, name: name_truncated}}"]
         ghost[f"{M}[member] = name_truncated"] = [f"owner{k} = {{**owner{k}, member: name}}"]
         # element-wise reading of the overlap test (so that `not known_members` can be used glyph by glyph)
-        hints[f"known_members = members.intersection({M}.keys())"] = [f"all(iff(g in known_members, g in {M}) for g in members)", f"all(iff(g in known_members, g in owner{k}) for g in members)"]
+        hints[f"known_members = members.intersection({M}.keys())"] = [f"all(iff(g in known_members, g in {M}) for g in members)"]
+        # past the `if known_members: .. continue` guard: none of the members is in the membership map, hence (own-dom) none
+        # has an owner yet -- stated once here, in the form the member loop's invariants start from
+        hints[f"group = side{k}Groups.get(name)"] = [f"all(g not in {M} for g in members)", f"all(g not in owner{k} for g in members)"]
         # the truncated name, under the name used by the quantified clauses
         hints[f"name_truncated = name[len(SIDE{k}_PREFIX):]"] = [f"name_truncated == k5_trunc(name, {len(P1)})"]
         loops[f"for member in members#{k}"] = _own_member_loop(k)
